@@ -430,7 +430,7 @@ class JointNormalDistribution(Distribution):
                 raise KeyError(names[0])
 
         elif isinstance(index, slice):
-            our_index = range(index.start, index.stop, index.step if index.step is not None else 1)
+            our_index = range(*index.indices(len(self)))
             names = tuple(self._names[i] for i in our_index)
 
         elif isinstance(index, Collection):
